@@ -10,6 +10,7 @@ def make_ref(case):
     prog = dict(case["program"])
     prog["strategy"] = case.get("strategy", 3)
     prog["_pause_at"] = case.get("pause_at", ())
+    prog["_n_stats"] = len(case.get("stats", ())) or 1
     return RefDEVS(prog)
 
 
